@@ -574,7 +574,27 @@ class Flow:
                 x = strip_all_casts(x['sub'])
             if isinstance(x, dict) and x.get('k') == 'Ref' and x.get('dk') in ('local', 'parm') and ('&' in p.get('t', '') or p.get('t', '').endswith('*')):
                 mapping[p['id']] = x
+            elif '&' not in p.get('t', '') and not p.get('t', '').endswith('*') and self._stable_value(x) and not self._modified(h['body'], p['id']):
+                # a scalar passed by value and never changed in the helper stands for the (call-free) expression it was given
+                mapping[p['id']] = a
         return self._subst(h['body'], mapping)
+
+    @staticmethod
+    def _stable_value(x):
+        """member chains on locals / this, locals, literals - nothing that calls or changes anything"""
+        for n in walk(x or {}):
+            if n.get('k') not in ('Member', 'Ref', 'Lit', 'Cast', 'This', 'Paren', 'Sizeof'):
+                return False
+        return isinstance(x, dict)
+
+    @staticmethod
+    def _modified(body, vid):
+        for n in walk(body or {}):
+            if n.get('k') == 'Bin' and n.get('op') in ('=', '+=', '-=', '*=', '/=', '|=', '&=', '^=', '<<=', '>>=') and (strip_all_casts(n['lhs']) or {}).get('id') == vid:
+                return True
+            if n.get('k') == 'Un' and n.get('op') in ('++', '--', '&') and (strip_all_casts(n['sub']) or {}).get('id') == vid:
+                return True
+        return False
 
     def _inlinable_helper(self, s, ctx):
         h = self._helper_target(s, ctx, 'void')
